@@ -385,3 +385,63 @@ def isrc(x):
     if x[:2] not in _country_codes:
         raise Reject()
     return x
+
+
+# --- Bitcoin, native SegWit addresses (BIP-173) ---------------------------------------------------------------------------
+# Base58Check addresses (P2PKH / P2SH) need SHA-256 and are outside what the engine can execute; the harness only feeds
+# candidates that start with the human-readable part and separator of a main-net Bech32 address ("BC1", upper case as
+# everything else in this file's input alphabet).  The canonical form is the lower-case address.
+
+BECH32_CHARSET = 'qpzry9x8gf2tvdw0s3jn54khce6mua7l'
+BECH32_GENERATOR = [0x3b6a57b2, 0x26508e6d, 0x1ea119fa, 0x3d4233dd, 0x2a1462b3]
+
+
+def _bech32_polymod(values):
+    chk = 1
+    for v in values:
+        b = chk >> 25
+        chk = ((chk & 0x1ffffff) << 5) | v
+        for i in range(5):
+            chk = chk ^ (BECH32_GENERATOR[i] if (b & (1 << i)) else 0)
+    return chk
+
+
+def bitcoin_bech32(x):
+    if x[:3] != 'BC1':
+        raise Reject()
+    if len(x) > 90:
+        raise Reject()
+    # the address is all upper case here (no mixed case possible); the character set is defined in lower case
+    data_part = x.lower()[3:]
+    if len(data_part) < 6 or not _all_in(data_part, BECH32_CHARSET):
+        raise Reject()
+    data = [BECH32_CHARSET.index(c) for c in data_part]
+    # human-readable part "bc" expanded: high bits, zero, low bits
+    hrp = [ord('b') >> 5, ord('c') >> 5, 0, ord('b') & 31, ord('c') & 31]
+    if _bech32_polymod(hrp + data) != 1:
+        raise Reject()
+    payload = data[:-6]
+    if len(payload) < 1:
+        raise Reject()
+    version = payload[0]
+    if version > 16:
+        raise Reject()
+    # regroup the 5-bit groups after the version into bytes; no padding of 5 or more bits, padding bits zero
+    acc = 0
+    bits = 0
+    nbytes = 0
+    for v in payload[1:]:
+        acc = ((acc << 5) | v) & 4095
+        bits = bits + 5
+        if bits >= 8:
+            bits = bits - 8
+            nbytes = nbytes + 1
+    if bits >= 5:
+        raise Reject()
+    if (acc & ((1 << bits) - 1)) != 0:
+        raise Reject()
+    if nbytes < 2 or nbytes > 40:
+        raise Reject()
+    if version == 0 and nbytes != 20 and nbytes != 32:
+        raise Reject()
+    return x.lower()
